@@ -212,7 +212,9 @@ class Run:
             self.record(name, function, "known-finding", v.backend if v else "", v.secs if v else 0.0, det, kind)
             return
         os.makedirs(os.path.join(REPLAYS, self.pid), exist_ok=True)
-        path = os.path.join(REPLAYS, self.pid, re.sub(r"[^A-Za-z0-9_.\-\[\],=]", "_", name)[:150] + ".json")
+        import hashlib
+
+        path = os.path.join(REPLAYS, self.pid, re.sub(r"[^A-Za-z0-9_.\-\[\],=]", "_", name)[:90] + "." + hashlib.md5(name.encode()).hexdigest()[:8] + ".json")
         info = dict(info)
         info.setdefault("property", self.pid)
         with open(path, "w") as f:
@@ -289,9 +291,18 @@ class Run:
         self.paths += d["paths"]
 
     # ---------------------------------------------------------------- bounded stand-ins
+    def worker_errors(self, errs, njobs):
+        """Native jobs that crashed or ran out of time are a problem of the checker, not of the code under verification."""
+        if errs:
+            self.note(f"{len(errs)}/{njobs} native jobs did not finish and are not counted: {errs[:2]}")
+            if len(errs) * 2 > njobs:
+                self.checker_failures.append(f"most native jobs of a bounded stand-in failed: {errs[0][:300]}")
+
     def bounded_result(self, name, function, bound, evaluations, failures, distinct=None):
         """failures: list of dict(inputs=..., observed=..., checker=...)"""
         self.function(function)
+        if evaluations == 0:
+            self.checker_failures.append(f"bounded stand-in '{name[:60]}' evaluated nothing")
         self.bounded.append(dict(name=name, function=function, bound=bound, evaluations=evaluations, failures=len(failures), distinct=distinct))
         for i, f in enumerate(failures[:3]):
             self._violation(f"{name}#{f.get('case', i)}", function, dict(f, obligation=name, bounded=True), no_input=False, kind="bounded", det=f.get("what", ""))
